@@ -43,3 +43,12 @@ PROPS["C09"] = {
     "assumptions": [],
     "rule": "schema-valid responses with every subset of optional parts removed x 4 signing layouts, valid IdP signature re-applied",
 }
+
+PROPS["C15"] = {
+    "modules": ["SamlVerif.Props.C15"],
+    "trusted_base": ["modelled, not verified: Go's regexp engine (the two duration regexps are replaced by a deterministic recogniser, tied by correspondence), "
+                     "strconv, and the time package's calendar (parameter of the instant theorems)"],
+    "assumptions": ["Go int64 arithmetic wraps modulo 2^64 (language specification)"],
+    "rule": "durations: boundary classes exhaustively (each sub-second digit count, carries at 60 s / 60 min, negatives, +-1 around every unit, MinInt64/MaxInt64) "
+            "+ random int64; duration strings: fixed list of documented/undocumented forms + grammar-generated + single-position mutations",
+}
